@@ -51,6 +51,14 @@ def gen_texts(ctx, quick, exhaustive_len=None):
         trunc += [t[:i] for i in range(len(t))]
     groups.append(("truncated", trunc))
     groups.append(("mutated", [jsongen.mutate(rng, rng.choice(valid)) for _ in range(3000 if quick else 200000)]))
+    # valid texts behind / before byte sequences that editors and encoders add: a UTF-8 byte order mark (RFC 8259 8.1: MUST NOT be added), UTF-16 marks,
+    # NBSP, NEL, form feed, vertical tab, zero-width space, NUL - none of them is JSON white space
+    marks = [b"\xef\xbb\xbf", b"\xef\xbb", b"\xbf", b"\xfe\xff", b"\xff\xfe", b"\xc2\xa0", b"\xc2\x85", b"\x0c", b"\x0b", b"\xe2\x80\x8b", b"\x00", b"\xef\xbb\xbf\xef\xbb\xbf"]
+    framed = []
+    for t in valid[: (40 if quick else 600)] + [b"1", b"{}", b"[]", b'"a"', b"null"]:
+        for m in marks:
+            framed += [m + t, t + m, m + b" " + t, b" " + m + t]
+    groups.append(("marks around valid texts", framed))
     return groups
 
 
